@@ -18,8 +18,8 @@ def corpus_cases(pid):
     return out
 
 
-def run_one(case, model, lazy, cache, strategy, seed, script=None, fine=False, rev=False):
-    run = simlib.run_case(case, lazy=lazy, cache=cache, strategy=strategy, seed=seed, script=script, fine=fine, rev=rev)
+def run_one(case, model, lazy, cache, strategy, seed, script=None, fine=False, rev=False, instant=()):
+    run = simlib.run_case(case, lazy=lazy, cache=cache, strategy=strategy, seed=seed, script=script, fine=fine, rev=rev, instant=instant)
     val = tracelib.validate(run, case, model, lazy, cache)
     return run, val
 
@@ -48,7 +48,7 @@ def shrink(case, fails, budget=60):
     return best
 
 
-def sched_property(out, info, tier, seed, pid, kinds, monitor, gen_opts=None, ncases=(120, 1500), variants=None,
+def sched_property(out, info, tier, seed, pid, kinds, monitor, gen_opts=None, ncases=(120, 1500), variants=None, case_gen=None,
                    hyp=None, known_match=None, extra_obligations=(), nontrivial=None, features=None, extra_cases=()):
     """kinds: discrepancy kinds that break *this* property's correspondence.
     hyp(case, ctx) -> list of violated scenario hypotheses (cases outside the theorem: monitor failures there must
@@ -75,16 +75,16 @@ def sched_property(out, info, tier, seed, pid, kinds, monitor, gen_opts=None, nc
     hyp_excluded = collections.Counter()
     kf = {f['id']: f for f in common.known_findings(pid)}
 
-    def handle(case, lazy, cache, strategy, sd, label, fine=False, rev=False, script=None):
+    def handle(case, lazy, cache, strategy, sd, label, fine=False, rev=False, script=None, instant=()):
         nonlocal validated, evaluations
         if model is None:
-            run = simlib.run_case(case, lazy=lazy, cache=cache, strategy=strategy, seed=sd, script=script, fine=fine, rev=rev)
+            run = simlib.run_case(case, lazy=lazy, cache=cache, strategy=strategy, seed=sd, script=script, fine=fine, rev=rev, instant=instant)
             val = tracelib.Validation(); val.impl_outcome = run.outcome; val.impl_kind, val.impl_sim = tracelib.classify_outcome(run)
         else:
-            run, val = run_one(case, model, lazy, cache, strategy, sd, script=script, fine=fine, rev=rev)
+            run, val = run_one(case, model, lazy, cache, strategy, sd, script=script, fine=fine, rev=rev, instant=instant)
         evaluations += 1
         outcomes[val.impl_kind] += 1
-        flags = dict(lazy=lazy, cache=cache, strategy=strategy, seed=sd, fine=fine, rev=rev)
+        flags = dict(lazy=lazy, cache=cache, strategy=strategy, seed=sd, fine=fine, rev=rev, instant=instant if isinstance(instant, str) else sorted(instant))
         mine = [d for d in val.disc if d['kind'] in kinds or any(d['kind'].startswith(k[:-1]) for k in kinds if k.endswith('*'))]
         if model is not None:
             validated += 1
@@ -115,18 +115,31 @@ def sched_property(out, info, tier, seed, pid, kinds, monitor, gen_opts=None, nc
     for name, rec in corpus_cases(pid):
         f = rec.get('flags', {})
         handle(rec['case'], f.get('lazy', True), f.get('cache', True), f.get('strategy', 'random'), f.get('seed', 0), 'corpus:' + name,
-               fine=f.get('fine', False), rev=f.get('rev', False), script=rec.get('schedule'))
+               fine=f.get('fine', False), rev=f.get('rev', False), script=rec.get('schedule'), instant=f.get('instant', ()))
+    # re-confirm the witnesses of the listed known findings of this property
+    for fid, fnd in kf.items():
+        if fnd.get('status') != 'known' or not fnd.get('witness'): continue
+        wp = os.path.join(common.VERIF, fnd['witness'])
+        if not os.path.exists(wp) or model is None or monitor is None: continue
+        rec = json.load(open(wp)); f = rec.get('flags', {})
+        run_w, val_w = run_one(rec['case'], model, f.get('lazy', True), f.get('cache', True), f.get('strategy', 'random'), f.get('seed', 0), script=rec.get('schedule'))
+        evaluations += 1
+        fails_w = monitor_run(monitor, rec['case'], run_w, val_w, model, f.get('lazy', True), f.get('cache', True))
+        if fails_w: known.setdefault(fid, dict(observed=fails_w[:2]))
+        else: out.notes.append(f'known finding {fid}: witness no longer reproduces')
     for (case, flags) in extra_cases:
         handle(case, flags.get('lazy', True), flags.get('cache', True), flags.get('strategy', 'random'), flags.get('seed', 0), 'extra',
                script=flags.get('script'))
     for k in range(n):
         crng = random.Random(seed * 1000003 + k)
-        case = gen.gen_case(crng, **gen_opts)
+        case = case_gen(crng, k) if case_gen else gen.gen_case(crng, **gen_opts)
         for vi, (lazy, cache) in enumerate(variants):
             strat = gen.pick_strategy(crng, case)
             fine = crng.random() < 0.15
             rev = crng.random() < 0.2
-            handle(case, lazy, cache, strat, seed * 100 + k * 10 + vi, f'gen:{seed}:{k}:{vi}', fine=fine, rev=rev)
+            r_ = crng.random()
+            instant = 'all' if r_ < 0.1 else ([f'S{i}' for i in range(case['n']) if crng.random() < 0.5] if r_ < 0.3 else ())
+            handle(case, lazy, cache, strat, seed * 100 + k * 10 + vi, f'gen:{seed}:{k}:{vi}', fine=fine, rev=rev, instant=instant)
         if tier == 'quick' and time.time() - t0 > 150: break
     if model is not None:
         model.close()
@@ -162,7 +175,7 @@ def replay_trace(path, pid, monitor, kinds):
     model = common.Model()
     f = r['flags']
     run, val = run_one(r['case'], model, f['lazy'], f['cache'], f.get('strategy', 'random'), f.get('seed', 0),
-                       script=r.get('schedule'), fine=f.get('fine', False), rev=f.get('rev', False))
+                       script=r.get('schedule'), fine=f.get('fine', False), rev=f.get('rev', False), instant=f.get('instant', ()))
     fails = monitor_run(monitor, r['case'], run, val, model, f['lazy'], f['cache']) if monitor else []
     mine = [d for d in val.disc if d['kind'] in kinds]
     print('implementation outcome:', val.impl_outcome[:200])
